@@ -179,9 +179,47 @@ def make_single(ids, target, L):
     return single
 
 
+def config_history(a: bytes, b: bytes, a2: bytes, b2: bytes, how: int) -> bool:
+    """the identity is configured through its PUBLIC interface, twice (values may become empty again): a basic read
+    returns exactly the objects that are non-empty after the second configuration step"""
+    from pymodbus.factory import ServerDecoder
+    from pymodbus.device import ModbusControlBlock
+    assume(len(a) <= 2 and len(b) <= 2 and len(a2) <= 2 and len(b2) <= 2)
+    assume(0 <= how <= 2)
+    ident = _set_identity([])
+    try:
+        ident.update({0: a, 1: b})
+        if how == 0:
+            ident.update({0: a2, 1: b2})
+        elif how == 1:
+            ident[0] = a2
+            ident[1] = b2
+        else:
+            ident.VendorName = a2
+            ident.ProductCode = b2
+        expected = [(oid, v) for oid, v in ((0, a2), (1, b2)) if len(v) > 0]
+        req = ServerDecoder().decode(bytes([0x2B, 0x0E, 1, 0]))
+        resp = req.execute(None)
+        if resp.function_code >= 0x80:
+            return len(expected) == 0 or False
+        resp.encode()
+        got = list(resp.information.items())[:resp.number_of_objects]
+        if len(got) != len(expected):
+            explain("basic read returns %d objects, %d are configured non-empty", len(got), len(expected))
+            return False
+        for (o1, v1), (o2, v2) in zip(got, expected):
+            if o1 != o2 or v1 != v2:
+                explain("object %r", o2)
+                return False
+        return True
+    finally:
+        _set_identity([])
+
+
 def obligations(tier):
     T = 180 if tier == "quick" else 1200
-    out = []
+    out = [Obl("config.history", config_history, timeout=T,
+               bounds="identity objects 0 and 1 configured twice through update() / item assignment / named properties (values of 0..2 symbolic bytes, empty included), then a basic read from object 0")]
     cases = [
         (1, [0, 1, 2], 0), (1, [0, 1, 2], 1), (1, [0, 1, 2], 2),
         (2, [0, 2, 5], 0), (2, [1, 4, 6], 4),
